@@ -258,6 +258,21 @@ Fixpoint root_f (h : state) (fuel : nat) (s : Z) : Z :=
   match fuel, parent_of h s with S f, Some p => root_f h f p | _, _ => s end.
 Definition root_of (h : state) (s : Z) : Z := root_f h (length (sc_parent (s_sc h))) s.
 
+(* ---------------------------------------------------------------- Value.shape = ... (rank edit) *)
+(* The rank is part of the record that stands for the Value object, so editing the shape of v replaces the record
+   of v by (identity of v, new rank) wherever the object is referenced: node inputs/outputs, sharding specs,
+   graph inputs.  Nothing in the library revisits the recorded axes when a shape changes. *)
+Definition sub_v (v v' : valobj) (x : valobj) : valobj := if v_eqb x v then v' else x.
+Definition sub_node (v v' : valobj) (nd : node) : node :=
+  mkN (map (option_map (sub_v v v')) (n_in nd)) (map (sub_v v v') (n_out nd))
+      (map (fun dc => mkDC (dc_cfg dc) (dc_stage dc)
+                        (map (fun sp => mkS (sub_v v v' (sp_val sp)) (sp_dev sp) (sp_dims sp)) (dc_specs dc)))
+           (n_dc nd)).
+Definition set_rank (h : state) (v : valobj) (r : option Z) : state :=
+  let v' := mkV (v_id v) r in
+  mkSt (s_names h) (map (fun p => (fst p, sub_node v v' (snd p))) (s_nodes h)) (map (sub_v v v') (s_gin h))
+       (s_cfgs h) (s_nextv h) (s_nextc h) (s_ir h) (s_sc h).
+
 (* ---------------------------------------------------------------- Model.clone *)
 Definition vmap := list (valobj * valobj).     (* first binding wins: later dict writes are prepended *)
 Definition vm_get (m : vmap) (v : valobj) : option valobj :=
@@ -531,6 +546,7 @@ Inductive op :=
 | OResizeIn (n : Z) (k : Z)
 | ORemoveNode (n : Z)
 | OClone (deep allow : bool)
+| OSetRank (v : valobj) (r : option Z)
 | ORoundTrip.
 
 Definition on_node (h : state) (n : Z) (f : node -> res node) : state * res unit :=
@@ -555,6 +571,7 @@ Definition exec (h : state) (o : op) : state * res unit :=
   | OResizeIn n k => on_node h n (fun nd => resize_inputs_nd nd k)
   | ORemoveNode n => remove_node h n
   | OClone deep allow => clone h deep allow
+  | OSetRank v r => (set_rank h v r, Ok tt)
   | ORoundTrip => roundtrip h
   end.
 
